@@ -8,6 +8,7 @@
 
   Proofs: Proofs/Lemmas/CliRecords.lean, CliWalk.lean.
 -/
+import Proofs.Lemmas.Misc
 import Proofs.Lemmas.CliRecords
 import Proofs.Lemmas.CliWalk
 
@@ -138,4 +139,13 @@ theorem stdout_is_blocks (f : Flags) (args : List FTree) :
     stdout f args = ((processed f args).map (fun pr => block f pr.1 pr.2)).flatten := by
   simp [stdout, List.flatMap_def]
 
+end Xsel.C20
+
+namespace Xsel.C20
+/-- `-s`, `-v`, `-e` arguments are split at their FIRST '=': the key has no '=', the value is
+    everything after it (so `-v v=a=b` binds `v` to `a=b`); an argument without '=' is rejected -/
+theorem binding_split {s k v : Chars} (h : Cli.splitKV s = some (k, v)) : s = k ++ ('=' :: v) ∧ '=' ∉ k :=
+  Cli.splitKV_spec h
+
+theorem binding_rejected {s : Chars} : Cli.splitKV s = none ↔ '=' ∉ s := Cli.splitKV_none
 end Xsel.C20
